@@ -124,6 +124,26 @@ def K_dict_ok(a, b, c):
     return ok
 
 
+def K_mixed_ok(a, b, form):
+    """equilibrium constant when only ONE of the two constants is a per-environment dictionary"""
+    if form == 0:
+        r = Reaction("A -> B", kf=a, kr={"e0": b, "default": 2.0 * b})
+        want = {"e0": a / b if b else None, "default": a / (2.0 * b) if b else None}
+    else:
+        r = Reaction("A -> B", kf={"e0": a, "e1": 3.0 * a}, kr=b)
+        want = {"e0": a / b if b else None, "e1": 3.0 * a / b if b else None, "default": 0.0 if b else None}
+    K = r.K
+    if not isinstance(K, dict) or not set(K) >= set(want):
+        return False
+    for k_, w in want.items():
+        if w is None:
+            if K[k_] is not None:
+                return False
+        elif K[k_] is None or abs(K[k_].value - w) > 1e-9 * max(abs(w), 1e-300):
+            return False
+    return True
+
+
 def network_rejects(which, pos):
     sp = [Species("A"), Species("B"), Species("C")]
     rs = [Reaction("A -> B", label="r0"), Reaction("B -> C", label="r1"), Reaction("C -> A", label="r2")]
